@@ -13,7 +13,8 @@ from vf.vtime import run_virtual
 PROPERTY = "C05"
 LEVEL = "exploration"
 RULE = (
-    "Schedules generated as data: 2..5 callers of one ECU client (requests with distinct DIDs so that replies are attributable), "
+    "Schedules generated as data: 2..5 callers of one ECU client, each a short program of reads (distinct DIDs) and ECU.set_session() calls "
+    "(distinct session levels) so that every request and reply is attributable, "
     "optionally the cyclic tester-present worker (generated interval) and explicit reconnect() calls; each caller has a start "
     "delay, max_retry 0/1 and a reply script per transmission (immediate, delayed, pending x k then final, no reply, late reply "
     "after the timeout, connection error); optionally one caller is cancelled at a generated virtual instant. The scripted "
@@ -65,6 +66,12 @@ class SchedTransport:
                 sc = ["none"]
             final = b"\x7e\x00"
             pend = b"\x7f\x3e\x78"
+        elif data[0] == 0x10:
+            # DiagnosticSessionControl to the caller's private session level 0x40+i
+            lst = self.scripts.get(0x1000 + (data[1] & 0x3F), [])
+            sc = lst.pop(0) if lst else ["imm"]
+            final = b"\x50" + data[1:2] + b"\x00\x32\x01\xf4"
+            pend = b"\x7f\x10\x78"
         else:
             did = int.from_bytes(data[1:3], "big")
             lst = self.scripts.get(did, [])
@@ -136,8 +143,11 @@ def case_s(draw) -> dict[str, Any]:
     n = draw(st.integers(2, 5))
     callers = []
     for i in range(n):
+        # a caller is a piece of scanner code: one read, or a short program of reads and session changes through the ECU-level
+        # helpers (set_session runs its hooks and the session change; any of them may fail)
+        ops = draw(st.one_of(st.just(["read"]), st.just(["read"]), st.lists(st.sampled_from(["read", "session", "session"]), min_size=1, max_size=3)))
         callers.append({"did": 0x1000 + i, "start": draw(st.sampled_from([0, 0, 0.05, 0.1, 0.2, 0.35, 0.5, 0.7, 1.0, 1.3, 2.0])),
-                        "max_retry": draw(st.integers(0, 1)), "scripts": draw(st.lists(script_s, min_size=1, max_size=2))})
+                        "max_retry": draw(st.integers(0, 1)), "scripts": draw(st.lists(script_s, min_size=1, max_size=2 if ops == ["read"] else 4)), "ops": ops})
     return {"callers": callers,
             "tp_interval": draw(st.one_of(st.none(), st.sampled_from([0.1, 0.25, 0.4, 0.9]))),
             "tp_script": draw(st.sampled_from([["imm"], ["imm"], ["delay", 0.3], ["none"], ["pending", 1, 0.1]])),
@@ -154,6 +164,7 @@ def run_case(case: dict[str, Any]) -> dict[str, Any]:
     results: dict[str, Any] = {}
     windows: dict[str, list[float]] = {}
     ping_windows: list[list[float | str]] = []
+    op_windows: list[list[Any]] = []
     state: dict[str, Any] = {}
 
     async def go() -> None:
@@ -179,14 +190,32 @@ def run_case(case: dict[str, Any]) -> dict[str, Any]:
                 results[name] = ("cancelled", None)  # cancelled before it ever touched the client
                 raise
             windows[name] = [loop.time(), -1.0]
+            idx = c["did"] - 0x1000
             try:
-                r = await ecu.request(service.ReadDataByIdentifierRequest(c["did"]), UDSRequestConfig(max_retry=c["max_retry"]))
-                results[name] = ("ok", r.pdu)
-            except asyncio.CancelledError:
-                results[name] = ("cancelled", None)
-                raise
-            except Exception as e:  # noqa: BLE001
-                results[name] = ("exc", type(e).__name__)
+                for j, op in enumerate(c.get("ops") or ["read"]):
+                    w: list[Any] = [name, j, op, loop.time(), -1.0, None, len(trace), -1]
+                    op_windows.append(w)
+                    try:
+                        cfg = UDSRequestConfig(max_retry=c["max_retry"])
+                        if op == "read":
+                            r = await ecu.request(service.ReadDataByIdentifierRequest(c["did"]), cfg)
+                            w[5] = ("ok", r.pdu)
+                        else:
+                            r = await ecu.set_session(0x40 + idx, config=cfg)
+                            w[5] = ("ok", r.pdu)
+                        if j == 0 or results.get(name, ("ok",))[0] == "ok":
+                            results[name] = w[5] if op == "read" else results.get(name, ("ok", None))
+                    except asyncio.CancelledError:
+                        w[5] = ("cancelled", None)
+                        results[name] = ("cancelled", None)
+                        raise
+                    except Exception as e:  # noqa: BLE001
+                        w[5] = ("exc", type(e).__name__)
+                        results[name] = ("exc", type(e).__name__)
+                    finally:
+                        w[4] = loop.time()
+                        w[7] = len(trace)
+                results.setdefault(name, ("ok", None))
             finally:
                 windows[name][1] = loop.time()
 
@@ -218,7 +247,7 @@ def run_case(case: dict[str, Any]) -> dict[str, Any]:
             await ecu.stop_cyclic_tester_present()
 
     status, val, dur = run_virtual(go, max_virtual=1e4)
-    return {"status": status, "val": val, "trace": trace, "results": results, "windows": windows, "pings": ping_windows, "state": state, "dur": dur}
+    return {"status": status, "val": val, "trace": trace, "results": results, "windows": windows, "pings": ping_windows, "ops": op_windows, "state": state, "dur": dur}
 
 
 def check(case: dict[str, Any]) -> list[tuple[str, str]]:
@@ -231,35 +260,53 @@ def check(case: dict[str, Any]) -> list[tuple[str, str]]:
     # happened to run it: an implementation may run an exchange in a helper task (e.g. under asyncio.shield).
     did_owner = {c["did"]: f"c{i}" for i, c in enumerate(case["callers"])}
     task_owner: dict[str, str] = {n: n for n in names}
+    def owner_of(data: bytes) -> str | None:
+        if data[0] == 0x22 and int.from_bytes(data[1:3], "big") in did_owner:
+            return did_owner[int.from_bytes(data[1:3], "big")]
+        if data[0] == 0x10 and 0x40 <= data[1] & 0x7F < 0x40 + len(names):
+            return f"c{(data[1] & 0x7F) - 0x40}"
+        return None
+
     for k, t, who, data in r["trace"]:
-        if k == "write" and who not in task_owner:
-            if data[0] == 0x22 and int.from_bytes(data[1:3], "big") in did_owner:
-                task_owner[who] = did_owner[int.from_bytes(data[1:3], "big")]
+        if k == "write" and who not in task_owner and owner_of(data):
+            task_owner[who] = owner_of(data)  # type: ignore[assignment]
     trace = [(k, t, task_owner.get(who, who), data) for k, t, who, data in r["trace"]]
     writes = [(t, who, data) for k, t, who, data in trace if k == "write"]
     recs = [(t, who) for k, t, who, _ in trace if k == "reconnect"]
-    # exchange windows: first own transmission .. request() returned
-    for name in names:
-        own = [t for t, who, _ in writes if who == name]
-        if not own or name not in r["windows"]:
+    # a request transmitted by a caller's task always is that caller's own
+    for t, who, data in writes:
+        if who in names and owner_of(data) not in (None, who):
+            out.append(("C05/foreign-request-transmitted", f"{who} transmitted {data.hex()} which belongs to {owner_of(data)}"))
+            break
+    # exchange windows: first own transmission of an operation .. the operation returned (one operation = one request())
+    ops = r.get("ops") or []
+    # (positions in the event log, not instants, delimit an operation: two operations of one caller may meet in one instant)
+    itrace = list(enumerate(trace))
+    for name, j, op, t0, t1, _res, i0, i1 in ops:
+        t1 = t1 if t1 >= 0 else 1e18
+        i1 = i1 if i1 >= 0 else len(trace)
+        own = [i for i, (k, t, who, _) in itrace if k == "write" and who == name and i0 <= i < i1]
+        if not own:
             continue
-        a, b = own[0], r["windows"][name][1]
-        for t, who, data in writes:
-            if who != name and a < t < b - 1e-9:
+        ia, a, b = own[0], trace[own[0]][1], t1
+        hit = False
+        for i, (k, t, who, data) in itrace:
+            if not (ia < i < i1 and t < b - 1e-9) or who == name:
+                continue
+            if k == "write":
                 kind = "tester-present" if data[0] == 0x3E else "request"
                 out.append((f"C05/interleaved/{kind}-inside-exchange",
-                            f"{who} transmitted {data.hex()} at t={t:.3f} inside the exchange of {name} [{a:.3f}, {b:.3f}]; {_tr(trace)}"))
-                break
-        for t, who in recs:
-            if who != name and a < t < b - 1e-9:
+                            f"{who} transmitted {data.hex()} at t={t:.3f} inside the exchange ({op} #{j}) of {name} [{a:.3f}, {b:.3f}]; {_tr(trace)}"))
+            elif k == "reconnect":
                 out.append(("C05/interleaved/reconnect-inside-exchange", f"{who} reconnected at t={t:.3f} inside the exchange of {name} [{a:.3f}, {b:.3f}]"))
-                break
-        # while an exchange is open only its owner consumes replies from the transport
-        for k, t, who, data in trace:
-            if k == "read" and who != name and a < t < b - 1e-9:
+            else:
+                # while an exchange is open only its owner consumes replies from the transport
                 out.append(("C05/interleaved/foreign-read-inside-exchange",
                             f"{who} consumed {data.hex() if isinstance(data, bytes) else data} from the transport at t={t:.3f} inside the exchange of {name} [{a:.3f}, {b:.3f}]; {_tr(trace)}"))
-                break
+            hit = True
+            break
+        if hit:
+            break
     # nothing may be transmitted or consumed on behalf of a caller after its request() has returned or was cancelled
     for name in names:
         if name not in r["windows"]:
@@ -281,12 +328,13 @@ def check(case: dict[str, Any]) -> list[tuple[str, str]]:
                             f"{who} transmitted {data.hex()} at t={t:.3f} inside the tester-present exchange [{a:.3f}, {b:.3f}]"))
                 break
     # replies are attributable
-    for i, name in enumerate(names):
-        res = r["results"].get(name)
-        if res and res[0] == "ok":
-            did = case["callers"][i]["did"]
-            if res[1][:3] != b"\x62" + did.to_bytes(2, "big"):
-                out.append(("C05/foreign-reply-returned", f"{name} (DID {did:#x}) got {res[1].hex()}"))
+    for name, j, op, _t0, _t1, res, _i0, _i1 in ops:
+        if res and res[0] == "ok" and res[1] is not None:
+            i = int(name[1:])
+            want = (b"\x62" + case["callers"][i]["did"].to_bytes(2, "big")) if op == "read" else bytes([0x50, 0x40 + i])
+            if res[1][: len(want)] != want:
+                out.append(("C05/foreign-reply-returned", f"{name} ({op} #{j}, expects {want.hex()}..) got {res[1].hex()}"))
+                break
     # progress
     if r["state"].get("unfinished"):
         out.append(("C05/no-progress", f"callers {r['state']['unfinished']} did not finish within 120 virtual seconds; results={r['results']}"))
